@@ -43,6 +43,12 @@ def wf(g):
     return list(wf_sym(g).values()) + list(wf_closed(g).values())
 
 
+# link tags are only stored for links that exist (key = (node, side, node, side) of the declaring end)
+TAGS_INV = ("forall(EKEY, lambda k: implies(k in {g}.edge_tags, k[0] in {g}.nodes and (k[1] == 0 or k[1] == 1) and "
+            "(k[2], k[3], tagov[k]) in ite(k[1] == 1, {g}.nodes[k[0]].end, {g}.nodes[k[0]].start)))")
+# tagov: ghost witness, the overlap of a link that carries the tags stored under key k
+
+
 def exact_change(kind, n1, s1, n2, s2, ov):
     """adjacency after adding (kind='add') / removing the link between side s1 of n1 and side s2 of n2, per side of a"""
     out = {}
@@ -76,7 +82,7 @@ def check_E_DIR_matches_source(repo):
 
 
 def register(reg):
-    types = dict(STR=STR, INT=INT)
+    types = dict(STR=STR, INT=INT, EKEY=EdgeKey)
     for meth, fld, op in (("add_from_start", "start", "add"), ("add_from_end", "end", "add"),
                           ("remove_from_start", "start", "remove"), ("remove_from_end", "end", "remove")):
         reg.add(Contract(
@@ -93,23 +99,35 @@ def register(reg):
     reg.add(Contract(
         file=GFA, func="GFA.add_edge",
         params=dict(self=GFAT, node1=STR, node1_dir=STR, node2=STR, node2_dir=STR, overlap=INT, tags=ListT(STR)),
-        modifies=["self"], types=types, module_env={"E_DIR": E_DIR_value},
+        modifies=["self"], types=types, module_env={"E_DIR": E_DIR_value}, ghost=dict(tagov=MapT(EdgeKey, INT)),
+        ghost_at={"after:self.edge_tags[": "tagov[(node1, node1_dir, node2, node2_dir)] = overlap"},
         spec_funcs={"adj": ADJ, "d1": "lambda: ite(old(node1_dir) == '+', 1, 0)", "d2": "lambda: ite(old(node2_dir) == '+', 0, 1)"},
-        requires=["node1 in self.nodes and node2 in self.nodes", "node1_dir == '+' or node1_dir == '-'", "node2_dir == '+' or node2_dir == '-'"] + wf("self"),
+        requires=["node1 in self.nodes and node2 in self.nodes", "node1_dir == '+' or node1_dir == '-'", "node2_dir == '+' or node2_dir == '-'"] + wf("self") + [TAGS_INV.format(g="self")],
         ensures=dict(
             [("same-node-set", "forall(STR, lambda a: (a in self.nodes) == (a in old(self).nodes))")]
             + list(exact_change("add", "old(node1)", "d1()", "old(node2)", "d2()", "overlap").items())
+            + [("link-tags-stored-under-the-declaring-end", "implies(len(tags) > 0, (old(node1), d1(), old(node2), d2()) in self.edge_tags and "
+                                                            "same(self.edge_tags[(old(node1), d1(), old(node2), d2())], tags))"),
+               ("other-link-tags-kept", "forall(EKEY, lambda k: implies(k != (old(node1), d1(), old(node2), d2()) or len(tags) == 0, "
+                                        "(k in self.edge_tags) == (k in old(self).edge_tags) and implies(k in self.edge_tags, same(self.edge_tags[k], old(self).edge_tags[k]))))"),
+               ("link-tags-only-for-existing-links", dict(expr=TAGS_INV.format(g="self"), **{"from": [
+                   "same-node-set", "exactly-this-link-added-start", "exactly-this-link-added-end", "link-tags-stored-under-the-declaring-end", "other-link-tags-kept"]}))]
             + [(k, dict(expr=v, **{"from": ["same-node-set", "exactly-this-link-added-start", "exactly-this-link-added-end"]}))
                for k, v in list(wf_sym("self").items()) + list(wf_closed("self").items())]),
     ))
     reg.add(Contract(
         file=GFA, func="GFA.remove_edge",
-        params=dict(self=GFAT, edge=TupleT(STR, INT, STR, INT, INT)), modifies=["self"], types=types,
+        params=dict(self=GFAT, edge=TupleT(STR, INT, STR, INT, INT)), modifies=["self"], types=types, ghost=dict(tagov=MapT(EdgeKey, INT)),
         spec_funcs={"adj": ADJ},
-        requires=["edge[0] in self.nodes and edge[2] in self.nodes", "(edge[1] == 0 or edge[1] == 1) and (edge[3] == 0 or edge[3] == 1)"] + wf("self"),
+        requires=["edge[0] in self.nodes and edge[2] in self.nodes", "(edge[1] == 0 or edge[1] == 1) and (edge[3] == 0 or edge[3] == 1)"] + wf("self") + [TAGS_INV.format(g="self")],
         ensures=dict(
             [("same-node-set", "forall(STR, lambda a: (a in self.nodes) == (a in old(self).nodes))")]
             + list(exact_change("remove", "edge[0]", "edge[1]", "edge[2]", "edge[3]", "edge[4]").items())
+            + [("link-tags-forgotten-under-both-keys", "(edge[0], edge[1], edge[2], edge[3]) not in self.edge_tags and (edge[2], edge[3], edge[0], edge[1]) not in self.edge_tags"),
+               ("other-link-tags-kept", "forall(EKEY, lambda k: implies(k != (edge[0], edge[1], edge[2], edge[3]) and k != (edge[2], edge[3], edge[0], edge[1]), "
+                                        "(k in self.edge_tags) == (k in old(self).edge_tags) and implies(k in self.edge_tags, same(self.edge_tags[k], old(self).edge_tags[k]))))"),
+               ("link-tags-only-for-existing-links", dict(expr=TAGS_INV.format(g="self"), **{"from": [
+                   "same-node-set", "exactly-this-link-removed-start", "exactly-this-link-removed-end", "link-tags-forgotten-under-both-keys", "other-link-tags-kept"]}))]
             + [(k, dict(expr=v, **{"from": ["same-node-set", "exactly-this-link-removed-start", "exactly-this-link-removed-end"]}))
                for k, v in list(wf_sym("self").items()) + list(wf_closed("self").items())]),
     ))
@@ -422,6 +440,7 @@ def register_remove_node(reg):
                             "not (b == n_id and sb == 0 and spos[(a, 1, ov)] < t1))))",
     }
     inv1.update(_wfd("self", ""))
+    inv1["link-tags-only-for-existing-links"] = TAGS_INV.format(g="self")
     inv2 = {
         "same-node-set": NODESET,
         "start-sides-so-far": Q4 + "((b, sb, ov) in self.nodes[a].start) == ((b, sb, ov) in mid.nodes[a].start and "
@@ -430,13 +449,14 @@ def register_remove_node(reg):
                             "not (a == n_id and epos[(b, sb, ov)] < t2) and not (b == n_id and sb == 1 and epos[(a, 1, ov)] < t2))))",
     }
     inv2.update(_wfd("self", ""))
+    inv2["link-tags-only-for-existing-links"] = TAGS_INV.format(g="self")
     reg.add(Contract(
-        file=GFA, func="GFA.remove_node", params=dict(self=GFAT, n_id=STR), modifies=["self"], types=dict(STR=STR, INT=INT),
-        ghost=dict(spos=MapT(Edge, INT), epos=MapT(Edge, INT), mid=GFAT),
+        file=GFA, func="GFA.remove_node", params=dict(self=GFAT, n_id=STR), modifies=["self"], types=dict(STR=STR, INT=INT, EKEY=EdgeKey),
+        ghost=dict(spos=MapT(Edge, INT), epos=MapT(Edge, INT), mid=GFAT, tagov=MapT(EdgeKey, INT)),
         locals=dict(starts=ListT(Edge), ends=ListT(Edge)),
         alias_ok=["contig_nodes"],
         ghost_at={"after:starts = [": "spos = last_keypos()", "after:ends = [": "epos = last_keypos()\nmid = self"},
-        requires=["n_id in self.nodes"] + wf("self"),
+        requires=["n_id in self.nodes"] + wf("self") + [TAGS_INV.format(g="self")],
         loops={
             1: Loop(index="t1", fingerprint="for n_start in starts", invariant=inv1),
             2: Loop(index="t2", fingerprint="for n_end in ends", invariant=inv2),
@@ -455,7 +475,10 @@ def register_remove_node(reg):
             ("start-sides-lose-exactly-the-links-to-it", Q4 + "((b, sb, ov) in self.nodes[a].start) == ((b, sb, ov) in old(self).nodes[a].start and b != n_id)))"),
             ("end-sides-lose-exactly-the-links-to-it", Q4 + "((b, sb, ov) in self.nodes[a].end) == ((b, sb, ov) in old(self).nodes[a].end and b != n_id)))"),
         ] + [(k, dict(expr=v, **{"from": ["exactly-this-node-removed", "start-sides-lose-exactly-the-links-to-it", "end-sides-lose-exactly-the-links-to-it"]}))
-             for k, v in _wfd("self", "").items()]),
+             for k, v in _wfd("self", "").items()] + [
+            ("link-tags-only-for-existing-links", TAGS_INV.format(g="self")),
+            ("no-link-tags-refer-to-the-deleted-node", "forall(EKEY, lambda k: implies(k in self.edge_tags, k[0] != n_id and k[2] != n_id))"),
+        ]),
         notes="contig_to_nodes clean-up (list bound from the dict, mutated in place) is not modelled: alias_ok, nothing is claimed about contig_to_nodes",
     ))
 
